@@ -1,10 +1,12 @@
 package c12
 
 import (
+	"bytes"
 	"crypto/ecdsa"
 	"crypto/elliptic"
 	"encoding/asn1"
 	"fmt"
+	"io"
 	"math/big"
 	"strings"
 
@@ -171,7 +173,7 @@ func prepSM2Sign(x *env, r *mon.Rand, variant string) *call {
 
 func sm2SignCall(d *big.Int, hash, msg, uid []byte, variant string) *call {
 	c := &call{inputs: fmt.Sprintf("d=%064x hash=%x msg=%x uid=%x", d, hash, msg, uid)}
-	c.run = func(rnd *mon.Script) (o outcome) {
+	c.run = func(rnd io.Reader) (o outcome) {
 		priv, err := sm2Key(d)
 		if err != nil {
 			panic("c12 harness: " + err.Error())
@@ -251,7 +253,7 @@ func prepSM2Encrypt(x *env, r *mon.Rand, variant string) *call {
 
 func sm2EncryptCall(d *big.Int, msg []byte, variant string) *call {
 	c := &call{inputs: fmt.Sprintf("d=%064x msg=%x", d, msg)}
-	c.run = func(rnd *mon.Script) (o outcome) {
+	c.run = func(rnd io.Reader) (o outcome) {
 		priv, err := sm2Key(d)
 		if err != nil {
 			panic("c12 harness: " + err.Error())
@@ -288,13 +290,43 @@ func sm2EncryptCall(d *big.Int, msg []byte, variant string) *call {
 		}
 		o.reject = func(k *big.Int) bool { // A5: t = KDF(x2 || y2, klen) all zero -> back to A1
 			q := ec.Mul(k, ec.Point{X: priv.X, Y: priv.Y})
-			t := refsm3.KDF(append(b32(q.X), b32(q.Y)...), len(msg))
-			for _, b := range t {
-				if b != 0 {
-					return false
+			return allZero(refsm3.KDF(append(b32(q.X), b32(q.Y)...), len(msg)))
+		}
+		o.full = func(k *big.Int) string { // the whole ciphertext as GB/T 32918.4 6.1 defines it for nonce k
+			q := ec.Mul(k, ec.Point{X: priv.X, Y: priv.Y})
+			c2 := refsm3.KDF(append(b32(q.X), b32(q.Y)...), len(msg))
+			for i := range c2 {
+				c2[i] ^= msg[i]
+			}
+			c3 := refsm3.SumParts(b32(q.X), msg, b32(q.Y))
+			var gotC2, gotC3 []byte
+			if isASN1 {
+				var v struct {
+					X, Y   *big.Int
+					C3, C2 []byte
+				}
+				if _, err := asn1.Unmarshal(ct, &v); err != nil {
+					return "ASN.1 ciphertext does not parse: " + err.Error()
+				}
+				gotC2, gotC3 = v.C2, v.C3
+			} else {
+				n1 := 65
+				if ct[0] == 2 || ct[0] == 3 {
+					n1 = 33
+				}
+				if len(ct) != n1+32+len(msg) {
+					return fmt.Sprintf("ciphertext has %d bytes, want %d", len(ct), n1+32+len(msg))
+				}
+				if variant == "Encrypt(C1C2C3)" {
+					gotC2, gotC3 = ct[n1:n1+len(msg)], ct[n1+len(msg):]
+				} else {
+					gotC3, gotC2 = ct[n1:n1+32], ct[n1+32:]
 				}
 			}
-			return true
+			if !bytes.Equal(gotC2, c2) || !bytes.Equal(gotC3, c3) {
+				return fmt.Sprintf("C2=%x C3=%x but M xor KDF([k]P_B)=%x and SM3(x2||M||y2)=%x: the ciphertext does not decrypt", gotC2, gotC3, c2, c3)
+			}
+			return ""
 		}
 		return
 	}
@@ -303,7 +335,7 @@ func sm2EncryptCall(d *big.Int, msg []byte, variant string) *call {
 
 func prepSM2GenKey(x *env, r *mon.Rand, variant string) *call {
 	c := &call{inputs: "-"}
-	c.run = func(rnd *mon.Script) (o outcome) {
+	c.run = func(rnd io.Reader) (o outcome) {
 		priv, err := sm2.GenerateKey(rnd)
 		o.err = err
 		if priv == nil || (priv.D == nil && priv.X == nil) {
@@ -336,7 +368,7 @@ func newKxParties(r *mon.Rand, variant string) kxParties {
 func prepSM2KxInit(x *env, r *mon.Rand, variant string) *call {
 	p := newKxParties(r, variant)
 	c := &call{inputs: fmt.Sprintf("dA=%064x dB=%064x uidA=%x uidB=%x keyLen=%d", p.dA, p.dB, p.uidA, p.uidB, p.keyLen)}
-	c.run = func(rnd *mon.Script) (o outcome) {
+	c.run = func(rnd io.Reader) (o outcome) {
 		a, err := sm2Key(p.dA)
 		if err != nil {
 			panic("c12 harness: " + err.Error())
@@ -365,7 +397,7 @@ func prepSM2KxRespond(x *env, r *mon.Rand, variant string) *call {
 	p := newKxParties(r, variant)
 	rA := ec.BaseMul(randScalar(r, sm2N)) // the initiator's ephemeral public key
 	c := &call{inputs: fmt.Sprintf("dA=%064x dB=%064x uidA=%x uidB=%x keyLen=%d RA=%x", p.dA, p.dB, p.uidA, p.uidB, p.keyLen, rA.Marshal())}
-	c.run = func(rnd *mon.Script) (o outcome) {
+	c.run = func(rnd io.Reader) (o outcome) {
 		a, err := sm2Key(p.dA)
 		if err != nil {
 			panic("c12 harness: " + err.Error())
@@ -396,7 +428,7 @@ func prepSM2KxRespond(x *env, r *mon.Rand, variant string) *call {
 
 func prepECDHGenKey(x *env, r *mon.Rand, variant string) *call {
 	c := &call{inputs: "-"}
-	c.run = func(rnd *mon.Script) (o outcome) {
+	c.run = func(rnd io.Reader) (o outcome) {
 		key, err := ecdh.P256().GenerateKey(rnd)
 		o.err = err
 		if key == nil {
@@ -432,9 +464,12 @@ func nistKey(d *big.Int) *sm2.PrivateKey {
 
 func prepLegacySign(x *env, r *mon.Rand, variant string) *call {
 	d := randScalar(r, nistN)
-	hash := r.Bytes(32)
+	return legacySignCall(d, r.Bytes(32), variant)
+}
+
+func legacySignCall(d *big.Int, hash []byte, variant string) *call {
 	c := &call{inputs: fmt.Sprintf("curve=P-256 d=%064x hash=%x", d, hash)}
-	c.run = func(rnd *mon.Script) (o outcome) {
+	c.run = func(rnd io.Reader) (o outcome) {
 		priv := nistKey(d)
 		var rr, ss *big.Int
 		if variant == "SignASN1(hash)" {
@@ -473,7 +508,7 @@ func prepLegacyEncrypt(x *env, r *mon.Rand, variant string) *call {
 	d := randScalar(r, nistN)
 	msg := r.Bytes([]int{16, 33, 64}[r.Intn(3)])
 	c := &call{inputs: fmt.Sprintf("curve=P-256 d=%064x msg=%x", d, msg)}
-	c.run = func(rnd *mon.Script) (o outcome) {
+	c.run = func(rnd io.Reader) (o outcome) {
 		priv := nistKey(d)
 		var ct []byte
 		if variant == "EncryptASN1" {
